@@ -179,7 +179,8 @@ def run(ctx, chk):
             chk.ok('C09.4', cfg + ':io', sample={'passes': 'cycles unchanged to Timer::run_cycles and VideoState::run_clock_cycles'})
         # ---- rule 5
         # the step function and the private helpers it is split into (run_interp, run_code_block, ...)
-        want = {TRC: {IRC}, VRC: {IRC}, IRC: {MRC}, MRC: private_family(prog, STEP3)}
+        want = {TRC: private_family(prog, IRC), VRC: private_family(prog, IRC), IRC: private_family(prog, MRC),
+                MRC: private_family(prog, STEP3)}
         for f, allowed in want.items():
             cs = set(c[0] for c in prog.callers(f))
             key = '%s:%s' % (cfg, f.split('::')[-2] + '::' + f.split('::')[-1])
